@@ -68,6 +68,21 @@ if [ -n "$CRASH" ]; then
   cp "$CRASH" "$DEST"
   # confirm through the plain (non-libFuzzer) replay path: only a reproducing oracle failure counts
   if "${VERIF_PGVERIF_BIN:-$HERE/harness/target/release/pgverif}" replay-bin "$ID" "$DEST" >"$WORK/replay.out" 2>&1; then
+    # The oracle is silent without the sanitizer. The target itself is an AddressSanitizer build and cache buffers
+    # are exact-size allocations (api::AlignedBuf): a read behind the buffer (C12) or a stack overflow (C13) is a
+    # violation of the statement itself. It counts only if the sanitizer report reproduces on the saved input twice.
+    ASAN_PAT=""; case "$ID" in C12) ASAN_PAT="ERROR: AddressSanitizer";; C13) ASAN_PAT="AddressSanitizer: stack-overflow";; esac
+    if [ -n "$ASAN_PAT" ]; then
+      n=0
+      for k in 1 2; do "$BIN" "$DEST" >"$WORK/asan$k.out" 2>&1; grep -q "$ASAN_PAT" "$WORK/asan$k.out" && n=$((n+1)); done
+      if [ $n -eq 2 ]; then
+        WHAT=$(grep -m1 "AddressSanitizer" "$WORK/asan1.out" | cut -c1-200)
+        echo "VIOLATION property=$ID replay=$DEST"
+        echo "  stage=libfuzzer sig=asan : $WHAT"
+        note finding "$EXECS" "sanitizer report reproduces on the saved input: $WHAT"
+        exit 1
+      fi
+    fi
     echo "fuzz stage: libFuzzer reported a crash that does not reproduce through the oracle (kept at $DEST); not a verdict"
     note skipped "$EXECS" "crash artifact did not reproduce through the oracle: $DEST"
     exit 0
